@@ -110,8 +110,12 @@ def check(ctx):
     else:
         problems.append('success is not tested before returning')
     sdef = [n for n in ast.walk(f) if isinstance(n, ast.Assign) and src(n.targets[0]) == 'success' and isinstance(n.value, ast.Compare)]
-    if len(sdef) != 1 or "full_output['message']" not in src(sdef[0].value):
-        problems.append("success is not derived from the integrator's own message")
+    if len(sdef) != 1 or k(src(sdef[0].value)) not in ("full_output['message']=='Integrationsuccessful.'", "'Integrationsuccessful.'==full_output['message']"):
+        problems.append("success is not exactly the integrator's own success message (%s)" % [src(x.value) for x in sdef])
+    others = [n for n in ast.walk(f) if isinstance(n, (ast.Assign, ast.AugAssign)) and src((n.targets[0] if isinstance(n, ast.Assign) else n.target)) == 'success'
+              and not isinstance(n.value, ast.Compare) and not (isinstance(n.value, ast.Constant) and n.value.value in (None, False))]
+    if others:
+        problems.append('success is also set by %s' % [util.stmt_key(x) for x in others])
     ctx.ob('R4.3-odeint-call', '_helper_simulate', not problems, where,
            'odeint(rhs_global, copy of the initial state, caller time points); result rows are labelled with the same time points; NaN rows on failure',
            '; '.join(problems))
